@@ -9,7 +9,7 @@ use crate::oracle::{self, CaseOutput, Finding, PipelineWant};
 use crate::prng::{Prng, derive};
 use crate::replayfile::ReplayFile;
 use crate::scenario::{Entry, Scenario, SchedSpec};
-use crate::simsched::{STRAT_PAUSE, STRAT_PCT, STRAT_STARVE, STRAT_STICKY, STRAT_UNIFORM, STRAT_WINDOW, Trace};
+use crate::simsched::{STRAT_PAUSE, STRAT_PCT, STRAT_STARVE, STRAT_STICKY, STRAT_TXWINDOW, STRAT_UNIFORM, STRAT_WINDOW, Trace};
 use crate::workload::{self, GenOptions, Profile};
 use serde_json::{Value, json};
 use std::path::Path;
@@ -51,7 +51,7 @@ pub enum SchedMode {
 pub fn sched_for(seed: u64, idx: u64, mode: SchedMode) -> SchedSpec {
     let case_seed = derive(seed, 0x5ced_0000 ^ idx);
     let mut rng = Prng::new(derive(case_seed, 1));
-    let strategy = [STRAT_UNIFORM, STRAT_STICKY, STRAT_PCT, STRAT_STARVE, STRAT_PAUSE, STRAT_WINDOW][rng.pick_weighted(&[10, 12, 8, 20, 20, 30])];
+    let strategy = [STRAT_UNIFORM, STRAT_STICKY, STRAT_PCT, STRAT_STARVE, STRAT_PAUSE, STRAT_WINDOW, STRAT_TXWINDOW][rng.pick_weighted(&[8, 10, 7, 15, 15, 20, 25])];
     let (p1, p2, p3) = match strategy {
         STRAT_STICKY => (*rng.pick(&[512u32, 800, 960, 1000]), 0, 0),
         STRAT_PCT => (rng.range(1, 6) as u32, *rng.pick(&[300u32, 1000, 3000]), 0),
@@ -72,6 +72,7 @@ pub fn sched_for(seed: u64, idx: u64, mode: SchedMode) -> SchedSpec {
             *rng.pick(&[100u32, 500, 2000, 8000]),
             *rng.pick(&[1024u32, 1024, 512, 128]),
         ),
+        STRAT_TXWINDOW => (*rng.pick(&[1u32, 1, 2, 2, 3]), *rng.pick(&[200u32, 1000, 4000, 12000]), 1024),
         _ => (0, 0, 0),
     };
     let strict = mode == SchedMode::Strict || rng.chance(6, 10);
